@@ -19,7 +19,8 @@ MANIFEST = dict(
          "source occur at most once and exactly on the pages their placement selects; column headers on page 1 and "
          "later pages iff pageby_header; one break at the start of every later page; on a one-page document the three "
          "placements coincide. Tied to the code by observation over the full placement product on 1/2/3/many-page "
-         "documents, random paper geometry and figure documents.",
+         "documents, random paper geometry and figure documents; _should_show_element is translated from its source "
+         "on every run and proved equal to the model's placement rule (Props/C06py.lean).",
     note="Paper geometry after each break and the single header/footer definition are checked on the observation "
          "(exact rational arithmetic on the configured floats); they are emitted by string templates outside the "
          "role-level model.",
